@@ -111,7 +111,28 @@ class KuhnAny(pk.hands.Hand):
         return max(hs)
 
 
-HAND_TYPES = {'JQLow': JQLow, 'KuhnAny': KuhnAny}
+@dataclass
+class HighCardLookup(pk.lookups.Lookup):
+    """Harness-defined one-card high hand over the standard rank order (cheap evaluation on 52 cards)."""
+    rank_order = pk.RankOrder.STANDARD
+
+    def _add_entries(self):
+        self._add_multisets(Counter({1: 1}), (True,), pk.lookups.Label.HIGH_CARD)
+
+
+class HighCardAny(pk.hands.Hand):
+    lookup = HighCardLookup()
+    low = False
+
+    @classmethod
+    def from_game(cls, hole_cards, board_cards=()):
+        hs = [cls([c]) for c in chain(Card.clean(hole_cards), Card.clean(board_cards)) if c]
+        if not hs:
+            raise ValueError('no hand')
+        return max(hs)
+
+
+HAND_TYPES = {'JQLow': JQLow, 'KuhnAny': KuhnAny, 'HighCardAny': HighCardAny}
 DECKS = {'KUHN6': KUHN6, 'KUHN9': KUHN9}
 
 
@@ -324,6 +345,10 @@ def custom(stacks, streets, deck='KUHN6', hand_types=('KuhnPokerHand',),
     cfg.update(extra)
     return cfg
 
+
+# hold'em-like street list (2 hole cards; flop/turn/river with burns), min bet 2
+HOLDEM_LIKE = [(False, (False, False), 0, False, 'POSITION', 2, None), (True, (), 3, False, 'POSITION', 2, None),
+               (True, (), 1, False, 'POSITION', 2, None), (True, (), 1, False, 'POSITION', 2, None)]
 
 # street templates for custom games: (burn, hole, board, draw, opening, min, max)
 KUHN_1 = [(False, (False,), 0, False, 'POSITION', 1, None)]
